@@ -265,6 +265,83 @@ def _worker(job):
         return part, None, traceback.format_exc()
 
 
+class WorkerDied(Exception):
+    pass
+
+
+WORKER_MEM_BYTES = int(os.environ.get("VERIF_WORKER_MEM_GB", "6")) << 30
+
+
+def _fork_child(conn, func, arg):
+    try:
+        try:
+            import resource
+            resource.setrlimit(resource.RLIMIT_AS,
+                               (WORKER_MEM_BYTES, WORKER_MEM_BYTES))
+        except Exception:
+            pass
+        try:
+            res = ("ok", func(arg))
+        except BaseException:
+            res = ("err", traceback.format_exc())
+        try:
+            conn.send(res)
+        except BaseException:
+            conn.send(("err", "result could not be sent:\n" +
+                       traceback.format_exc()))
+        conn.close()
+    finally:
+        os._exit(0)
+
+
+def fork_map(func, args, jobs):
+    """Unordered map with ONE FRESH FORKED PROCESS PER ITEM (an item's outcome
+    is a function of its argument only, not of what a worker ran before) and
+    at most `jobs` alive at a time.  Yields (index, result).  A child that
+    ends without delivering a result - killed by the kernel, crashed in C
+    code - raises WorkerDied instead of hanging the run; a child that exceeds
+    its address-space limit gets a MemoryError which is reported like any
+    other exception in it.  Closing the generator kills what is running."""
+    from multiprocessing.connection import wait
+    mp = multiprocessing.get_context("fork")
+    args = list(args)
+    nxt = 0
+    live = {}           # conn -> (index, process)
+    try:
+        while nxt < len(args) or live:
+            while nxt < len(args) and len(live) < max(1, jobs):
+                a, b = mp.Pipe(duplex=False)
+                pr = mp.Process(target=_fork_child, args=(b, func, args[nxt]))
+                pr.start()
+                b.close()
+                live[a] = (nxt, pr)
+                nxt += 1
+            for conn in wait(list(live)):
+                idx, pr = live.pop(conn)
+                try:
+                    kind, val = conn.recv()
+                except (EOFError, OSError):
+                    pr.join(5)
+                    raise WorkerDied(
+                        "worker for item %d ended without a result (exit "
+                        "code %r: killed or crashed)" % (idx, pr.exitcode))
+                finally:
+                    conn.close()
+                pr.join(10)
+                if kind == "err":
+                    raise RuntimeError("worker failed on item %d:\n%s"
+                                       % (idx, val))
+                yield idx, val
+    finally:
+        for conn, (idx, pr) in live.items():
+            try:
+                pr.kill()
+                pr.join(5)
+                conn.close()
+            except Exception:
+                pass
+
+
 def run_shards(ctx, jobs_list, report=None):
     """jobs_list: list of (func, part_name, arg).  func(arg) -> Shard.
     Runs them on ctx.jobs forked workers; exhaustive over the list."""
@@ -275,23 +352,17 @@ def run_shards(ctx, jobs_list, report=None):
     # seed only permutes the order in which shards are executed
     k = ctx.seed % len(jobs_list)
     order = jobs_list[k:] + jobs_list[:k]
-    if ctx.jobs <= 1 and False:
-        results = map(_worker, order)
-    else:
-        mp = multiprocessing.get_context("fork")
-        # one fresh forked process per shard: a shard's outcome is a function
-        # of its argument only, not of what the worker ran before (matters
-        # for defects that depend on call history, e.g. a cache)
-        pool = mp.Pool(max(1, min(ctx.jobs, len(order))), maxtasksperchild=1)
-        results = pool.imap_unordered(_worker, order, chunksize=1)
+    # one fresh forked process per shard: a shard's outcome is a function
+    # of its argument only, not of what the worker ran before (matters
+    # for defects that depend on call history, e.g. a cache)
+    gen = fork_map(_worker, order, min(ctx.jobs, len(order)))
     try:
-        for part, packed, err in results:
+        for idx, (part, packed, err) in gen:
             if err:
                 raise RuntimeError("worker failed in part %s:\n%s" % (part, err))
             report.absorb(part, packed)
     finally:
-        pool.terminate()
-        pool.join()
+        gen.close()
     return report
 
 
